@@ -280,6 +280,37 @@ func init() {
 					reqs = append(reqs, engineURLReq(g, lines))
 				}
 				emit("engine\t" + encodeStorage(ls) + "\t" + encodeReqs(reqs))
+				// lower-cased request strings longer than 4096 bytes whose only occurrence of a rule's window is at the very
+				// end: hostname requests are never capped, and lower-casing lengthens some code points and every invalid
+				// byte, so the capped URL can grow beyond the cap again.  Separate cases on the same storage (the model
+				// declines non-ASCII lower-casing; the linear-scan oracle still applies there).
+				if len(lines) == 0 || i%2 == 1 {
+					continue
+				}
+				var longHost, longURL []Req
+				for j := 0; j < 12 && (len(longHost) < 1 || len(longURL) < 2); j++ {
+					r := coupledReq(g, Pick(g, lines))
+					if r.Kind == "host" && len(longHost) < 1 {
+						r.Hostname = strings.Repeat(strings.Repeat(Pick(g, []string{"a", "b1", "x-y"}), 60)[:50+g.Intn(10)]+".", 80+g.Intn(4)) + r.Hostname
+						longHost = append(longHost, r)
+					} else if r.Kind == "url" && len(longURL) < 2 {
+						if k := strings.Index(r.URL, "://"); k >= 0 {
+							rest := r.URL[k+3:]
+							host, path := rest, "/"
+							if sl := strings.IndexAny(rest, "/?"); sl >= 0 {
+								host, path = rest[:sl], rest[sl:]
+							}
+							r.URL = r.URL[:k+3] + host + "/" + strings.Repeat(Pick(g, []string{"\u023a", "\u023e", "\xff", "\u212a\u023a"}), 1390+g.Intn(20)) + path
+							longURL = append(longURL, r)
+						}
+					}
+				}
+				if len(longHost) > 0 {
+					emit("engine\t" + encodeStorage(ls) + "\t" + encodeReqs(longHost))
+				}
+				if len(longURL) > 0 {
+					emit("engine\t" + encodeStorage(ls) + "\t" + encodeReqs(longURL))
+				}
 			}
 		},
 		Run: func(line string, st *Stats) (string, string, bool) {
@@ -524,6 +555,23 @@ func init() {
 					}
 					ls[0].content = extra + ls[0].content
 					emit(encodeStorage(ls) + "\t" + encList(append([]string{d, sub, d, "x." + sub}, cosHosts...)))
+					continue
+				}
+				if g.Chance(1, 8) {
+					// rules with the same selector and the same permitted domains that differ only in their ~exclusions, the
+					// more restrictive one first or last; also exclusion-only (generic) rules: each rule is its own rule
+					d := Pick(g, []string{"example.org", "shop.example.org", "example.com"})
+					sub := Pick(g, []string{"sub.", "www.", "a."}) + d
+					selx := Pick(g, []string{".promo", ".first", "#banner"})
+					pair := []string{d + ",~" + sub + "##" + selx, d + "##" + selx}
+					if g.Chance(1, 3) {
+						pair = []string{"~" + sub + "##" + selx, "~" + d + "##" + selx}
+					}
+					if g.Bool() {
+						pair[0], pair[1] = pair[1], pair[0]
+					}
+					ls[0].content = pair[0] + "\n" + ls[0].content + "\n" + pair[1] + "\n"
+					emit(encodeStorage(ls) + "\t" + encList(append([]string{sub, d, "x." + sub}, cosHosts...)))
 					continue
 				}
 				emit(encodeStorage(ls) + "\t" + encList(cosHosts))
